@@ -119,7 +119,7 @@ def gen():
         sites = (re.search(r"cc->curr_chan\s*\[\s*\(\s*new_chan\s*>>\s*1\s*\)\s*&\s*1\s*\]\s*=\s*new_chan", cap),
                  re.search(r"chan\s*=\s*\(\s*cc->curr_chan\s*\[\s*field2\s*\]\s*&\s*4\s*\)", cmd),
                  re.search(r"\(\s*cc->curr_chan\s*\[\s*field2\s*\]\s*&\s*5\s*\)\s*\+\s*field2\s*\*\s*2", cap))
-        if not all(sites) or len(re.findall(r"curr_chan", cap)) != 3:
+        if not all(sites) or len(re.findall(r"curr_chan", cap.replace(body, ""))) != 3:
             raise SystemExit("translator: curr_chan[2] declared but not used as curr_chan[field2] / curr_chan[(new_chan >> 1) & 1]")
         per_field = True
     elif re.search(r"int\s+curr_chan\s*;", cch):
@@ -138,6 +138,12 @@ def gen():
     if readdr[0] != readdr[1] or any((("ch =" in b.group(1)) or ("ch=" in b.group(1))) != r for b, r in zip((m12, m14), readdr)):
         raise SystemExit("translator: EDM and ENM must both start with `ch = &cc->channel[chan & 3];` or neither may assign ch")
     edm_on_caption = readdr[0]
+
+    # channel switch: are both current-channel selectors reset (`cc->curr_chan[0] = 0; cc->curr_chan[1] = 0;`)?
+    n_reset = len(re.findall(r"cc->curr_chan\s*\[\s*[01]\s*\]\s*=\s*0\s*;", body))
+    if "curr_chan" in body and (n_reset != 2 or len(re.findall(r"curr_chan", body)) != 2 or not per_field):
+        raise SystemExit("translator: vbi_caption_channel_switched: expected `cc->curr_chan[0] = 0; cc->curr_chan[1] = 0;` or no use of curr_chan")
+    chsw_resets_curr = n_reset == 2
 
     def lst(v):
         return "[" + ", ".join(str(x) for x in v) + "]"
@@ -177,6 +183,9 @@ def gen():
            "/-- EDM and ENM start with `ch = &cc->channel[chan & 3];`: inside a Text Mode transmission they act on the caption",
            "    memories (EIA-608-B 7.7 / Annex B.7)?  (`false` = they act on the text channel, finding F73) -/",
            "def edmEnmOnCaption : Bool := %s" % ("true" if edm_on_caption else "false"),
+           "/-- `vbi_caption_channel_switched()` resets `curr_chan[0]` and `curr_chan[1]` to 0 (no current channel: data is discarded",
+           "    until the next mode-setting code)?  (`false` = the selectors survive a channel switch, finding chsw-curr-chan) -/",
+           "def chswResetsCurr : Bool := %s" % ("true" if chsw_resets_curr else "false"),
            "", "end Zvbi.Gen.Cc", ""]
     return write_if_changed(os.path.join(OUT, "CcConsts.lean"), "\n".join(out))
 
